@@ -584,10 +584,15 @@ def eq_fields(run: Run, model: PyModel, rid: str) -> None:
              ("another line", dict(line_no=9), True), ("another page", dict(file_path=Opaque("vpath", "/Z/b.zo")), True), ("another ZID field", dict(zid="240101#01"), True),
              ("another modify date", dict(modify_date=Term("marker:D2", ())), True), ("another create date", dict(create_date=Term("marker:D2", ())), True),
              ("other tags", dict(areas=HObj("list", items=["b"]), projects=HObj("list", items=["p"])), True), ("other properties", dict(properties=HObj("dict", fields={"k": "w"})), True)]
+    # pairs whose two sides both differ from the base note: the priority of a closed / cancelled todo is not part of its text form, but it is part of its todo state
+    pairs = [("a closed todo with another priority", dict(todo_payload=("P2", "CLOSED_TODO")), dict(todo_payload=("P0", "CLOSED_TODO")), False),
+             ("a cancelled todo with another priority", dict(todo_payload=("P3", "CANCELED_TODO")), dict(todo_payload=("P1", "CANCELED_TODO")), False),
+             ("a closed todo vs the same text cancelled", dict(todo_payload=("P2", "CLOSED_TODO")), dict(todo_payload=("P2", "CANCELED_TODO")), False),
+             ("text that differs only in surrounding blanks", dict(body="T1 some text"), dict(body=" T1 some text \n"), False)]
     n = 0
-    for label, over, want in cases:
+    for label, over_a, over, want in [(l, {}, o, w) for l, o, w in cases] + pairs:
         st = State()
-        a, b = mk(st), mk(st, **over)
+        a, b = mk(st, **over_a), mk(st, **over)
         try:
             res = I.run_function(f"{NOTE}.__eq__", [a, b], st=st)
         except Exception as e:  # noqa: BLE001
@@ -607,7 +612,7 @@ def eq_fields(run: Run, model: PyModel, rid: str) -> None:
         n += 1
         run.check(rid, "a note never equals a non-note", v is False and not s.imprecise, "Note.__eq__", f"note == str: {v}", "a note compares equal to (or raises on) an object that is not a note",
                   file="src/zorg/domain/models/_page.py", node=fi.node)
-    run.floor("Note.__eq__ evaluations", n, 12)
+    run.floor("Note.__eq__ evaluations", n, 16)
 
 
 def clock_agreement(run: Run, model: PyModel, rid: str) -> None:
